@@ -1995,6 +1995,9 @@ func runC03Proc(c *fw.Case) {
 		}
 		for i := 0; i < 3; i++ {
 			p := cands[c.Draw(len(cands), "cfg.nearmiss.pick")]
+			if i == 0 && c.Bool("cfg.nearmiss.children") {
+				p = strings.TrimSuffix(location, "/") + "/*" // "everything below this location" is not the location
+			}
 			if locationMatchRef(p, location) {
 				continue // would legitimately apply
 			}
